@@ -153,6 +153,29 @@ def systematic(rng):
                 h.open(abi, 3, "f0"); h.generic(abi, "fd_read", 5); h.generic(abi, "fd_readdir", 4)
                 h.call(abi, "fd_close", 4); h.generic(abi, "fd_read", 5)
                 out.append(("dir-moved", h))
+        # absolute guest paths in every path_* call: the directory descriptor must be validated all the same
+        for call in wo.PATH_CALLS:
+            for ap in wo.abs_paths_for(call):
+                for cls in ("closed-opened", "closed-stdio", "never-issued", "never-issued-max", "live-stdio", "live-preopen", "live-file"):
+                    h = new_hist()
+                    if cls == "closed-opened":
+                        h.open(abi, 3, "a", wo.O_CREAT); h.call(abi, "fd_close", 4); n = 4
+                    elif cls == "closed-stdio":
+                        h.call(abi, "fd_close", 0); n = 0
+                    elif cls == "never-issued":
+                        n = 77
+                    elif cls == "never-issued-max":
+                        n = wo.U32MAX
+                    elif cls == "live-stdio":
+                        n = 1
+                    elif cls == "live-preopen":
+                        n = 3
+                    else:
+                        h.open(abi, 3, "f0"); n = 4
+                    h.generic(abi, call, n, abspath=ap)
+                    if call == "path_rename":       # the absolute path and the dead descriptor in the second position
+                        h.generic(abi, call, 3, fd2=n, abspath=ap)
+                    out.append(("abs-path", h))
         # prestat of the pre-opened directory
         for ln in (0, 1, 2, 3, 16):
             h = new_hist(); h.generic(abi, "fd_prestat_get", 3); h.call(abi, "fd_prestat_dir_name", 3, h.res(16), ln)
@@ -184,7 +207,8 @@ def random_history(rng):
         else:
             call = rng.choice(CALLS + ["fd_readdir"] * 4 + ["fd_fdstat_get", "fd_filestat_get", "fd_read"] * 2)
             n = rng.choice(cand)
-            h.generic(abi, call, n, fd2=rng.choice(cand) if rng.random() < 0.5 else None)
+            ap = rng.choice(wo.abs_paths_for(call)) if call in wo.PATH_CALLS and rng.random() < 0.4 else None
+            h.generic(abi, call, n, fd2=rng.choice(cand) if rng.random() < 0.5 else None, abspath=ap)
     return h
 
 
@@ -292,10 +316,8 @@ def compare(h, real, model):
             break
         a, b = wo.canon_line(rl[i]), wo.canon_line(ml[i])
         if b == "r unmodelled":      # the model reached a host call it does not model (listing, rename, lseek on a directory, …)
-            m = h.meta[i]
-            if m and m["call"] in ("path_rename", "path_unlink_file", "path_remove_directory", "path_create_directory",
-                                   "path_symlink") and a.split()[:2] == ["r", "0"]:
-                return None          # the real name space changed in a way the POSIX model does not follow: stop comparing
+            if wo.diverges(h.meta[i], a):
+                return None          # the real state changed in a way the POSIX model does not follow: stop comparing
             continue
         if a != b:
             return f"line {i} `{h.lines[i]}`: real `{a}` model `{b}`"
